@@ -3,9 +3,9 @@ package rules
 import (
 	"fmt"
 	"go/ast"
+	"go/token"
 	"go/types"
 	"sort"
-	"strings"
 
 	"bebopverif/internal/core"
 	"bebopverif/internal/geneval"
@@ -31,12 +31,40 @@ func checkC18(c *core.Ctx) {
 		c.Undecide("File.Generate not found")
 		return
 	}
-	// the worklist loop: for i := 0; i < len(imports); i++
+	// the worklist loop: `for i := 0; i < len(W); i++` whose body appends to W
 	var loop *ast.ForStmt
+	var work types.Object
 	ast.Inspect(gen.Body, func(n ast.Node) bool {
 		f, ok := n.(*ast.ForStmt)
-		if ok && loop == nil && f.Cond != nil && strings.Contains(wire.Canon(f.Cond), "len(imports)") {
-			loop = f
+		if !ok || loop != nil || f.Cond == nil {
+			return loop == nil
+		}
+		be, ok := ast.Unparen(f.Cond).(*ast.BinaryExpr)
+		if !ok || be.Op != token.LSS {
+			return true
+		}
+		call, ok := ast.Unparen(be.Y).(*ast.CallExpr)
+		if !ok || wire.Canon(call.Fun) != "len" || len(call.Args) != 1 {
+			return true
+		}
+		id, ok := ast.Unparen(call.Args[0]).(*ast.Ident)
+		if !ok {
+			return true
+		}
+		w := info.ObjectOf(id)
+		grows := false
+		ast.Inspect(f.Body, func(m ast.Node) bool {
+			if as, ok := m.(*ast.AssignStmt); ok && len(as.Lhs) == 1 && len(as.Rhs) == 1 {
+				if l, ok := as.Lhs[0].(*ast.Ident); ok && info.ObjectOf(l) == w {
+					if ap, ok := as.Rhs[0].(*ast.CallExpr); ok && wire.Canon(ap.Fun) == "append" {
+						grows = true
+					}
+				}
+			}
+			return true
+		})
+		if grows {
+			loop, work = f, w
 		}
 		return loop == nil
 	})
@@ -47,34 +75,67 @@ func checkC18(c *core.Ctx) {
 	// positions of the interesting statements inside the loop body
 	idx := map[string]int{"miss": -1, "append": -1, "mark": -1, "edge": -1, "join": -1}
 	var joinCall *ast.CallExpr
-	var elemVar types.Object
-	for i, s := range loop.Body.List {
-		src := strings.Join(strings.Fields(srcOf(p, s)), " ")
-		switch {
-		case strings.Contains(src, "filepath.Join("):
-			idx["join"] = i
-			ast.Inspect(s, func(n ast.Node) bool {
-				if call, ok := n.(*ast.CallExpr); ok && wire.Canon(call.Fun) == "filepath.Join" {
-					joinCall = call
-				}
-				return true
-			})
-		case strings.HasPrefix(src, "if _, ok := imported[") && strings.Contains(src, "continue"):
-			idx["miss"] = i
-		case strings.Contains(src, "imports = append(imports,"):
-			idx["append"] = i
-		case strings.HasPrefix(src, "imported[") && strings.Contains(src, "] = "):
-			idx["mark"] = i
-		case strings.Contains(src, ".AddEdge("):
-			idx["edge"] = i
+	var elemVar, seen types.Object
+	// the de-duplication test: if _, ok := M[k]; ok { continue }
+	for i, st := range loop.Body.List {
+		ifs, ok := st.(*ast.IfStmt)
+		if !ok || ifs.Init == nil || len(ifs.Body.List) == 0 {
+			continue
 		}
-		if as, ok := s.(*ast.AssignStmt); ok && len(as.Lhs) == 1 && len(as.Rhs) == 1 {
-			if ix, ok := as.Rhs[0].(*ast.IndexExpr); ok && wire.Canon(ix.X) == "imports" {
-				if id, ok := as.Lhs[0].(*ast.Ident); ok {
-					elemVar = info.ObjectOf(id)
-				}
+		as, ok := ifs.Init.(*ast.AssignStmt)
+		if !ok || len(as.Lhs) != 2 || len(as.Rhs) != 1 {
+			continue
+		}
+		ix, ok := ast.Unparen(as.Rhs[0]).(*ast.IndexExpr)
+		if !ok {
+			continue
+		}
+		if _, isMap := info.TypeOf(ix.X).Underlying().(*types.Map); !isMap {
+			continue
+		}
+		if br, ok := ifs.Body.List[len(ifs.Body.List)-1].(*ast.BranchStmt); ok && br.Tok == token.CONTINUE && wire.Canon(ifs.Cond) == wire.Canon(as.Lhs[1]) {
+			if id, ok := ast.Unparen(ix.X).(*ast.Ident); ok {
+				seen = info.ObjectOf(id)
+				idx["miss"] = i
 			}
 		}
+	}
+	for i, st := range loop.Body.List {
+		ast.Inspect(st, func(n ast.Node) bool {
+			switch x := n.(type) {
+			case *ast.CallExpr:
+				if cal := load.Callee(info, x); cal != nil {
+					if cal.Pkg() != nil && cal.Pkg().Path() == "path/filepath" && cal.Name() == "Join" && joinCall == nil {
+						joinCall = x
+						idx["join"] = i
+					}
+					if cal.Name() == "AddEdge" && idx["edge"] < 0 {
+						idx["edge"] = i
+					}
+				}
+			case *ast.AssignStmt:
+				if len(x.Lhs) == 1 && len(x.Rhs) == 1 {
+					if l, ok := x.Lhs[0].(*ast.Ident); ok && info.ObjectOf(l) == work {
+						if ap, ok := x.Rhs[0].(*ast.CallExpr); ok && wire.Canon(ap.Fun) == "append" && idx["append"] < 0 {
+							idx["append"] = i
+						}
+					}
+					if lix, ok := x.Lhs[0].(*ast.IndexExpr); ok && seen != nil {
+						if id, ok := ast.Unparen(lix.X).(*ast.Ident); ok && info.ObjectOf(id) == seen && idx["mark"] < 0 {
+							idx["mark"] = i
+						}
+					}
+					if rix, ok := x.Rhs[0].(*ast.IndexExpr); ok {
+						if id, ok := ast.Unparen(rix.X).(*ast.Ident); ok && info.ObjectOf(id) == work {
+							if l, ok := x.Lhs[0].(*ast.Ident); ok {
+								elemVar = info.ObjectOf(l)
+							}
+						}
+					}
+				}
+			}
+			return true
+		})
 	}
 	pos := p.Pos(loop.Pos())
 	c.Check("R1", "sub-imports are queued only past the already-imported test", pos, idx["miss"] >= 0 && idx["append"] > idx["miss"], fmt.Sprintf("statement order in the worklist loop: %v", idx))
@@ -118,28 +179,89 @@ func checkC18(c *core.Ctx) {
 	if comb == nil || sep == nil {
 		c.Undecide("the import mode switch of File.Generate was not found")
 	} else {
-		combSrc := ""
-		for _, s := range comb {
-			combSrc += srcOf(p, s)
+		// appendsTo[F]: `<File>.F = append(<File>.F, …)`; spreads[F]: the appended
+		// operand is `<other File>.F...`; ranged[F]: a loop over `<File>.F`
+		scan := func(stmts []ast.Stmt) (appendsTo, spreads, ranged map[string]bool) {
+			appendsTo, spreads, ranged = map[string]bool{}, map[string]bool{}, map[string]bool{}
+			for _, s := range stmts {
+				ast.Inspect(s, func(n ast.Node) bool {
+					switch x := n.(type) {
+					case *ast.RangeStmt:
+						if f := fileField(info, x.X); f != "" {
+							ranged[f] = true
+						}
+					case *ast.AssignStmt:
+						if len(x.Lhs) != 1 || len(x.Rhs) != 1 {
+							return true
+						}
+						f := fileField(info, x.Lhs[0])
+						ap, ok := x.Rhs[0].(*ast.CallExpr)
+						if f == "" || !ok || wire.Canon(ap.Fun) != "append" || len(ap.Args) < 2 || fileField(info, ap.Args[0]) != f {
+							return true
+						}
+						appendsTo[f] = true
+						if ap.Ellipsis.IsValid() && fileField(info, ap.Args[1]) == f && wire.Canon(ap.Args[1]) != wire.Canon(ap.Args[0]) {
+							spreads[f] = true
+						}
+					}
+					return true
+				})
+			}
+			return
 		}
-		sepSrc := ""
-		for _, s := range sep {
-			sepSrc += srcOf(p, s)
-		}
+		_, cSpread, _ := scan(comb)
+		sAppend, _, sRanged := scan(sep)
 		for _, f := range defSlices {
-			c.Check("R4", "combined mode inlines imported "+f, p.Pos(gen.Pos()), strings.Contains(combSrc, "f."+f+" = append(f."+f+", imp."+f+"...)"), "definitions of this kind in an imported file are missing from the combined output")
+			c.Check("R4", "combined mode inlines imported "+f, p.Pos(gen.Pos()), cSpread[f], "definitions of this kind in an imported file are missing from the combined output")
 			if f == "Consts" {
 				continue // separate mode leaves constants in their own package
 			}
 			c.Check("R4", "separate mode makes imported "+f+" available under their package name", p.Pos(gen.Pos()),
-				strings.Contains(sepSrc, "range imp."+f) && strings.Contains(sepSrc, "f."+f+" = append(f."+f+","), "definitions of this kind in an imported file cannot be referenced")
+				sRanged[f] && sAppend[f], "definitions of this kind in an imported file cannot be referenced")
 		}
 	}
-	genSrc := srcOf(p, gen.Body)
-	iCycle := strings.Index(genSrc, ".FindCycle()")
-	iFirstWrite := strings.Index(genSrc, "writeLine(w,")
-	guard := strings.Contains(strings.Join(strings.Fields(genSrc), " "), "if settings.ImportGenerationMode == ImportGenerationModeSeparate { if err := importGraph.FindCycle(); err != nil { return err } }")
-	c.Check("R4", "import cycles are searched in separate mode, before any output", p.Pos(gen.Pos()), guard && iCycle >= 0 && iCycle < iFirstWrite, "")
+	// FindCycle runs under `if <settings>.ImportGenerationMode == ImportGenerationModeSeparate`,
+	// its error is returned, and no output has been written yet
+	var cyclePos, firstWrite token.Pos
+	guard := false
+	ast.Inspect(gen.Body, func(n ast.Node) bool {
+		switch x := n.(type) {
+		case *ast.CallExpr:
+			if cal := load.Callee(info, x); cal != nil {
+				if cal.Name() == "writeLine" && (firstWrite == 0 || x.Pos() < firstWrite) {
+					firstWrite = x.Pos()
+				}
+			}
+		case *ast.IfStmt:
+			be, ok := ast.Unparen(x.Cond).(*ast.BinaryExpr)
+			if !ok || be.Op != token.EQL {
+				return true
+			}
+			sel, ok := ast.Unparen(be.X).(*ast.SelectorExpr)
+			if !ok || sel.Sel.Name != "ImportGenerationMode" || wire.Canon(be.Y) != "ImportGenerationModeSeparate" {
+				return true
+			}
+			for _, st := range x.Body.List {
+				inner, ok := st.(*ast.IfStmt)
+				if !ok || inner.Init == nil || !endsInReturn(inner.Body) {
+					continue
+				}
+				if as, ok := inner.Init.(*ast.AssignStmt); ok && len(as.Rhs) == 1 {
+					if call, ok := as.Rhs[0].(*ast.CallExpr); ok {
+						if cal := load.Callee(info, call); cal != nil && cal.Name() == "FindCycle" {
+							if _, isErr := errNilTest(info, inner.Cond); isErr && !lastResultIsNil(inner.Body.List[len(inner.Body.List)-1].(*ast.ReturnStmt)) {
+								guard = true
+								cyclePos = call.Pos()
+							}
+						}
+					}
+				}
+			}
+		}
+		return true
+	})
+	c.Check("R4", "import cycles are searched in separate mode, before any output", p.Pos(gen.Pos()), guard && cyclePos < firstWrite && firstWrite != 0,
+		"FindCycle must run when (and only when) the mode is separate, its error must be returned, and nothing may have been written before")
 
 	// ---- R6 import scenario, folded by the generator evaluator
 	importScenarioRules(c, p)
@@ -154,14 +276,73 @@ func checkC18(c *core.Ctx) {
 		c.Undecide("dgraph.findCycle not found")
 		return
 	}
+	// parameters by role: the node (first string parameter), the stack and the
+	// visited set (the two map parameters; the stack is the one deleted from)
+	igInfo := ig.TypesInfo
+	var node, stack, visited types.Object
+	var maps []types.Object
+	for _, f := range fc.Type.Params.List {
+		for _, nm := range f.Names {
+			o := igInfo.ObjectOf(nm)
+			switch o.Type().Underlying().(type) {
+			case *types.Map:
+				maps = append(maps, o)
+			case *types.Basic:
+				if node == nil {
+					node = o
+				}
+			}
+		}
+	}
+	isDeleteOf := func(n ast.Node, m, k types.Object) bool {
+		es, ok := n.(*ast.ExprStmt)
+		if !ok {
+			return false
+		}
+		call, ok := es.X.(*ast.CallExpr)
+		if !ok || wire.Canon(call.Fun) != "delete" || len(call.Args) != 2 {
+			return false
+		}
+		a, ok1 := ast.Unparen(call.Args[0]).(*ast.Ident)
+		b, ok2 := ast.Unparen(call.Args[1]).(*ast.Ident)
+		return ok1 && ok2 && (m == nil || igInfo.ObjectOf(a) == m) && igInfo.ObjectOf(b) == k
+	}
+	ast.Inspect(fc.Body, func(n ast.Node) bool {
+		if es, ok := n.(*ast.ExprStmt); ok && isDeleteOf(es, nil, node) {
+			a := ast.Unparen(es.X.(*ast.CallExpr).Args[0]).(*ast.Ident)
+			stack = igInfo.ObjectOf(a)
+		}
+		return true
+	})
+	for _, m := range maps {
+		if m != stack {
+			visited = m
+		}
+	}
+	if node == nil || stack == nil || visited == nil || len(maps) != 2 {
+		c.Undecide("findCycle: node / stack / visited parameters not recognised")
+		return
+	}
+	isStoreOf := func(n ast.Node, m, k types.Object) bool {
+		as, ok := n.(*ast.AssignStmt)
+		if !ok || len(as.Lhs) != 1 {
+			return false
+		}
+		ix, ok := as.Lhs[0].(*ast.IndexExpr)
+		if !ok {
+			return false
+		}
+		a, ok1 := ast.Unparen(ix.X).(*ast.Ident)
+		b, ok2 := ast.Unparen(ix.Index).(*ast.Ident)
+		return ok1 && ok2 && igInfo.ObjectOf(a) == m && igInfo.ObjectOf(b) == k
+	}
 	var rng *ast.RangeStmt
 	pushAt, popAt, rngAt := -1, -1, -1
 	for i, s := range fc.Body.List {
-		src := strings.Join(strings.Fields(srcOf(p, s)), " ")
-		if strings.HasPrefix(src, "stack[from] =") {
+		if isStoreOf(s, stack, node) {
 			pushAt = i
 		}
-		if strings.HasPrefix(src, "delete(stack, from)") {
+		if isDeleteOf(s, stack, node) {
 			popAt = i
 		}
 		if r, ok := s.(*ast.RangeStmt); ok {
@@ -178,7 +359,7 @@ func checkC18(c *core.Ctx) {
 		startIdx := 0
 		for _, b := range f.g.Blocks {
 			for i, n := range b.Nodes {
-				if strings.HasPrefix(strings.Join(strings.Fields(srcOf(p, n)), " "), "stack[from] =") {
+				if isStoreOf(n, stack, node) {
 					start, startIdx = b, i+1
 				}
 			}
@@ -187,7 +368,7 @@ func checkC18(c *core.Ctx) {
 		var bad []string
 		if start != nil {
 			f.reach(start, startIdx, func(n ast.Node) bool {
-				return strings.HasPrefix(strings.Join(strings.Fields(srcOf(p, n)), " "), "delete(stack, from)")
+				return isDeleteOf(n, stack, node)
 			}, func(r *ast.ReturnStmt, path []*cfg.Block) {
 				if r != nil && lastResultIsNil(r) {
 					okPath = false
@@ -195,22 +376,53 @@ func checkC18(c *core.Ctx) {
 				}
 			})
 		}
-		c.Check("R3", "every non-cycle return of findCycle pops the node first", fpos, okPath, fmt.Sprintf("`return nil` at %v is reachable from the push without delete(stack, from): the node stays on the stack and the next path through it is reported as a cycle", bad))
+		c.Check("R3", "every non-cycle return of findCycle pops the node first", fpos, okPath, fmt.Sprintf("`return nil` at %v is reachable from the push without removing the node from the stack: the node stays on the stack and the next path through it is reported as a cycle", bad))
 	}
 	if rng == nil {
 		c.Undecide("findCycle has no edge loop")
 		return
 	}
+	var to types.Object
+	if id, ok := rng.Value.(*ast.Ident); ok {
+		to = igInfo.ObjectOf(id)
+	}
+	// membership test `if _, ok := M[to]; ok { <exit> }` as a direct statement of the loop
+	memberTest := func(s ast.Stmt, m types.Object, exit func(*ast.BlockStmt) bool) bool {
+		ifs, ok := s.(*ast.IfStmt)
+		if !ok || ifs.Init == nil {
+			return false
+		}
+		as, ok := ifs.Init.(*ast.AssignStmt)
+		if !ok || len(as.Lhs) != 2 || len(as.Rhs) != 1 || wire.Canon(ifs.Cond) != wire.Canon(as.Lhs[1]) {
+			return false
+		}
+		ix, ok := ast.Unparen(as.Rhs[0]).(*ast.IndexExpr)
+		if !ok {
+			return false
+		}
+		a, ok1 := ast.Unparen(ix.X).(*ast.Ident)
+		b, ok2 := ast.Unparen(ix.Index).(*ast.Ident)
+		return ok1 && ok2 && igInfo.ObjectOf(a) == m && igInfo.ObjectOf(b) == to && exit(ifs.Body)
+	}
+	endsInContinue := func(b *ast.BlockStmt) bool {
+		if len(b.List) == 0 {
+			return false
+		}
+		br, ok := b.List[len(b.List)-1].(*ast.BranchStmt)
+		return ok && br.Tok == token.CONTINUE
+	}
 	stackTest, recurse, visitedSkip := -1, -1, -1
 	for i, s := range rng.Body.List {
-		src := strings.Join(strings.Fields(srcOf(p, s)), " ")
-		if strings.Contains(src, "stack[to]") && strings.Contains(src, "return") {
+		if memberTest(s, stack, func(b *ast.BlockStmt) bool { return endsInReturn(b) && !lastResultIsNil(b.List[len(b.List)-1].(*ast.ReturnStmt)) }) {
 			stackTest = i
 		}
-		if strings.Contains(src, "visited[to]") && strings.Contains(src, "continue") {
+		if memberTest(s, visited, endsInContinue) {
 			visitedSkip = i
 		}
-		if strings.Contains(src, "d.findCycle(to,") {
+		if recurse < 0 && containsCall(s, func(call *ast.CallExpr) bool {
+			cal := load.Callee(igInfo, call)
+			return cal != nil && types.Object(cal) == igInfo.ObjectOf(fc.Name)
+		}) {
 			recurse = i
 		}
 	}
@@ -219,8 +431,40 @@ func checkC18(c *core.Ctx) {
 		"visited is written but never consulted during the descent: a node reachable along k paths is explored k times, which is exponential on layered diamond-shaped import graphs")
 	// the outer loop skips visited start nodes
 	if top := p.FuncDecl(ig, "dgraph.FindCycle"); top != nil {
-		src := strings.Join(strings.Fields(srcOf(p, top.Body)), " ")
-		c.Check("R3", "FindCycle starts a search from every unvisited node", p.Pos(top.Pos()), strings.Contains(src, "if _, ok := visited[node]; ok { continue }") && strings.Contains(src, "d.findCycle(node, stack, visited,"), "")
+		skips, starts := false, false
+		ast.Inspect(top.Body, func(n ast.Node) bool {
+			r, ok := n.(*ast.RangeStmt)
+			if !ok {
+				return true
+			}
+			var nodeVar types.Object
+			if id, ok := r.Value.(*ast.Ident); ok {
+				nodeVar = igInfo.ObjectOf(id)
+			}
+			for _, s := range r.Body.List {
+				if ifs, ok := s.(*ast.IfStmt); ok && ifs.Init != nil && endsInContinue(ifs.Body) {
+					if as, ok := ifs.Init.(*ast.AssignStmt); ok && len(as.Rhs) == 1 {
+						if ix, ok := ast.Unparen(as.Rhs[0]).(*ast.IndexExpr); ok {
+							if k, ok := ast.Unparen(ix.Index).(*ast.Ident); ok && igInfo.ObjectOf(k) == nodeVar && nodeVar != nil {
+								skips = true
+							}
+						}
+					}
+				}
+				if containsCall(s, func(call *ast.CallExpr) bool {
+					cal := load.Callee(igInfo, call)
+					if cal == nil || types.Object(cal) != igInfo.ObjectOf(fc.Name) || len(call.Args) == 0 {
+						return false
+					}
+					k, ok := ast.Unparen(call.Args[0]).(*ast.Ident)
+					return ok && igInfo.ObjectOf(k) == nodeVar
+				}) {
+					starts = true
+				}
+			}
+			return true
+		})
+		c.Check("R3", "FindCycle starts a search from every unvisited node", p.Pos(top.Pos()), skips && starts, fmt.Sprintf("skips visited start nodes: %v; starts findCycle from the loop's node: %v", skips, starts))
 	}
 }
 
